@@ -84,6 +84,7 @@ class SimQueue(object):
             raise Full
         self._free -= 1
         self.n_put += 1
+        sim.progress()
         if st.feeder is None:
             st.buffer.clear()
             t = current_task()
@@ -120,6 +121,7 @@ class SimQueue(object):
                 )
                 self._pipe.append(data)
                 self._pipe_bytes += n
+                sim.progress()
                 if st.closed:
                     sim.probe("feeder_flush_after_close")
 
@@ -130,6 +132,7 @@ class SimQueue(object):
         self._pipe_bytes -= len(data) + 4
         self._free += 1
         self.n_got += 1
+        self._sim.progress()
         return data
 
     def get(self, block=True, timeout=None):
@@ -145,7 +148,8 @@ class SimQueue(object):
                 sim.block_until(self._lbl("get.recv"), lambda: len(self._pipe) > 0)
                 data = self._pop()
             finally:
-                self._rlock = None
+                if not me.killed:       # SIGTERM while holding the lock leaves it held
+                    self._rlock = None
         else:
             if block:
                 deadline = sim.now + timeout
@@ -169,7 +173,8 @@ class SimQueue(object):
                     raise Empty
                 data = self._pop()
             finally:
-                self._rlock = None
+                if not me.killed:
+                    self._rlock = None
         return ForkingPickler.loads(data)
 
     def get_nowait(self):
@@ -264,7 +269,8 @@ class SimProcess(object):
         self._kwargs = dict(kwargs or {})
         self.daemon = bool(daemon)
         self._task = None
-        self.exitcode = None
+        self._exitcode = None
+        self._terminated = False
         self.name = name
         self.pid = None
         self._queues = None
@@ -285,21 +291,25 @@ class SimProcess(object):
         # arguments, except the IPC objects (and harness recorders), which
         # define __deepcopy__ -> self.
         target, args, kwargs = copy.deepcopy((self._target, self._args, self._kwargs))
-        queues = _find_queues((args, kwargs))
-
         def body():
             target(*args, **kwargs)
 
         def on_exit(task):
+            if task.killed:
+                # SIGTERM: no finalizers run, feeder threads die with the process
+                self._exitcode = -15
+                sim.log(pname, "exitcode -15")
+                return
             if task.exc is not None:
                 sim.stderr.append("Process %s:\n%s" % (self.name, task.exc_tb))
-                self.exitcode = 1
+                code = 1
             else:
-                self.exitcode = 0
+                code = 0
             # _exit_function: flush and join this process's queue feeders
             for q in sim_all_queues(sim):
                 q._process_exit(pname)
-            sim.log(pname, "exitcode %d" % self.exitcode)
+            self._exitcode = code
+            sim.log(pname, "exitcode %d" % code)
 
         self._task = sim.spawn(pname, body, proc=pname)
         self._task.on_exit = on_exit
@@ -323,8 +333,33 @@ class SimProcess(object):
         self._sim.yield_point("is_alive %s" % t.name)
         return not t.done
 
+    @property
+    def exitcode(self):
+        t = self._task
+        if t is None:
+            return None
+        self._sim.yield_point("exitcode %s" % t.name)
+        if not t.done:
+            return None
+        return self._exitcode
+
     def terminate(self):
-        raise kernel.HarnessError("SimProcess.terminate is not modelled")
+        """SIGTERM: the process dies at its next scheduling point; its queue
+        feeder threads die with it (whatever they had buffered is lost)."""
+        t = self._task
+        assert t is not None
+        sim = self._sim
+        sim.yield_point("terminate %s" % t.name)
+        if t.done:
+            return
+        t.killed = True
+        for q in sim_all_queues(sim):
+            st = q._ps.get(t.name)
+            if st is not None and st.feeder is not None and not st.feeder.done:
+                st.feeder.killed = True
+            if q._rlock is t:
+                # a reader killed while holding the queue's read lock leaves it locked forever
+                sim.probe("killed_holding_rlock")
 
     kill = terminate
 
@@ -338,10 +373,6 @@ _ALLQ = "_all_queues"
 
 def sim_all_queues(sim):
     return getattr(sim, _ALLQ, [])
-
-
-def _find_queues(obj):
-    return []
 
 
 # -- dispatchers installed on the multiprocessing module ----------------------
